@@ -73,6 +73,10 @@ pub fn alphabet_v(c: usize) -> Vec<Op> {
     let c = c as u32;
     v.push(Op::WriteV(vec![c.saturating_sub(1).max(1), 2, c + 1]));
     v.push(Op::WriteV(vec![0, 1, 3 * c]));
+    // formatted writes (`write!` goes through `write_fmt`, which a writer may override): short
+    // and long arguments, long ones not in first place
+    v.push(Op::WriteFmt(vec![2, 300]));
+    v.push(Op::WriteFmt(vec![c, 1, 260, 3]));
     v
 }
 
@@ -96,6 +100,7 @@ fn op_sig(o: &Op) -> &'static str {
         Op::Write(_) => "write",
         Op::WriteAll(_) => "write_all",
         Op::WriteV(_) => "write_vectored",
+        Op::WriteFmt(_) => "write_fmt",
         Op::Flush => "flush",
         Op::PollOnce | Op::PollAll => "poll",
         Op::Abort => "abort",
@@ -135,7 +140,7 @@ pub fn c08_judge(c: &StreamCase, o: &StreamObs, sink: &mut Sink) -> (Verdict, Op
                 }
                 Err(e) => return (Verdict::viol("write-error-on-live-body", format!("step {}: write({}) failed with {} although the body is alive", i, n, e)), None),
             },
-            (Op::WriteAll(_), Res::Unit(r)) | (Op::Flush, Res::Unit(r)) if r.is_err() => {
+            (Op::WriteAll(_) | Op::WriteFmt(_), Res::Unit(r)) | (Op::Flush, Res::Unit(r)) if r.is_err() => {
                 return (Verdict::viol(format!("{}-error-on-live-body", op_sig(&s.op)), format!("step {}: {:?} ({}) failed with {:?} although the body is alive", i, s.op, n_of(&s.op), r)), None);
             }
             (Op::Flush, Res::Unit(Ok(()))) => {
@@ -200,7 +205,7 @@ pub fn c08_judge(c: &StreamCase, o: &StreamObs, sink: &mut Sink) -> (Verdict, Op
 
 fn n_of(o: &Op) -> u32 {
     match o {
-        Op::WriteV(ns) => ns.iter().sum(),
+        Op::WriteV(ns) | Op::WriteFmt(ns) => ns.iter().sum(),
         Op::Write(n) | Op::WriteAll(n) => *n,
         _ => 0,
     }
@@ -341,6 +346,9 @@ pub fn c08_block(b: usize, sink: &mut Sink, judge: &Judge) {
         let mut case = StreamCase::raw(c, ops);
         case.via_parts = rng.chance(1, 2);
         case.fresh_wakers = rng.chance(1, 2);
+        if rng.chance(1, 4) {
+            case.prelude = rng.range(1, 5) as u8;
+        }
         if rng.chance(1, 8) {
             case.accept_encoding = Some(b"identity".to_vec());
         }
@@ -356,7 +364,7 @@ impl Prop for C08 {
         "exploration"
     }
     fn rule(&self, ctx: &Ctx) -> String {
-        format!("identity-coded streaming bodies. Alphabet per chunk size c: write(0,1,c-1,c,c+1,2c,3c), write_all(1,c+1,3c), write_vectored([c-1,2,c+1]), write_vectored([0,1,3c]), flush, poll-once, poll-until-pending; every sequence ends with drop + drain + 2 extra polls. Exhaustive: all sequences of length 1..={} for c in {{1,2,3,4,7}}, both request representations alternating; random: sequences of 10..200 ops for c in {{1,2,3,4,7,4096,65536}}; backlog histories: 1-40 MiB queued unread, then small writes + flush + drain. Payload byte k is a position hash. Non-trivial = distinct sequence that accepted >= 1 byte and whose frames, write counts, flush availability and clean end were compared with the sequential model",
+        format!("identity-coded streaming bodies. Alphabet per chunk size c: write(0,1,c-1,c,c+1,2c,3c), write_all(1,c+1,3c), write_vectored([c-1,2,c+1]), write_vectored([0,1,3c]), write!(two string arguments of 2 and 300 bytes), write!(4 arguments of c, 1, 260, 3 bytes), flush, poll-once, poll-until-pending; every sequence ends with drop + drain + 2 extra polls. Exhaustive: all sequences of length 1..={} for c in {{1,2,3,4,7}}, both request representations alternating; random: sequences of 10..200 ops for c in {{1,2,3,4,7,4096,65536}}; backlog histories: 1-40 MiB queued unread, then small writes + flush + drain; a quarter of the streams is preceded on the same thread by another stream that is aborted, disconnected or abandoned. Payload byte k is a position hash. Non-trivial = distinct sequence that accepted >= 1 byte and whose frames, write counts, flush availability and clean end were compared with the sequential model",
             if thorough(ctx) { 5 } else { 4 })
     }
     fn n_blocks(&self, ctx: &Ctx) -> usize {
@@ -434,7 +442,7 @@ pub fn c09_judge(c: &StreamCase, o: &StreamObs, sink: &mut Sink) -> (Verdict, Op
                 }
                 Err(e) => return (Verdict::viol("write-error-on-live-body", format!("step {}: write failed: {}", i, e)), None),
             },
-            (Op::WriteAll(_), Res::Unit(Err(e))) | (Op::Flush, Res::Unit(Err(e))) => {
+            (Op::WriteAll(_) | Op::WriteFmt(_), Res::Unit(Err(e))) | (Op::Flush, Res::Unit(Err(e))) => {
                 return (Verdict::viol(format!("{}-error-on-live-body", op_sig(&s.op)), format!("step {}: {:?} failed: {}", i, s.op, e)), None);
             }
             (Op::Flush, Res::Unit(Ok(()))) => {
@@ -509,12 +517,15 @@ pub fn c09_block(b: usize, sink: &mut Sink, judge: &Judge) {
         let blk = sp.blocks[b];
         run_seq_block(&ctx, blk, 9, sink, &|c, ops, rng| {
             if blk.1 > 0 {
-                [1u32, 6, 9].iter().map(|l| { let mut k = StreamCase::gzip(c, *l, ops.clone()); k.fresh_wakers = *l == 6; k }).collect()
+                [1u32, 6, 9].iter().map(|l| { let mut k = StreamCase::gzip(c, *l, ops.clone()); k.fresh_wakers = *l == 6; if rng.chance(1, 3) { k.prelude = rng.range(1, 5) as u8; } k }).collect()
             } else {
                 let mut case = StreamCase::gzip(if c > 100 || rng.chance(1, 2) { c } else { *rng.pick(&[1usize, 2, 5, 17]) }, rng.range(1, 9) as u32, ops);
                 case.payload = *rng.pick(&[Payload::Hash, Payload::Zeros, Payload::Text]);
                 case.via_parts = rng.chance(1, 2);
                 case.fresh_wakers = rng.chance(1, 2);
+                if rng.chance(1, 3) {
+                    case.prelude = rng.range(1, 5) as u8;
+                }
                 vec![case]
             }
         }, judge);
@@ -540,6 +551,7 @@ pub fn c09_block(b: usize, sink: &mut Sink, judge: &Judge) {
             }
             let mut case = StreamCase::gzip(chunk, level, ops);
             case.payload = [Payload::Hash, Payload::Zeros, Payload::Text][(i + k) % 3];
+            case.prelude = (i % 6) as u8;
             exec(&case, sink, judge);
         }
         // a stalled reader: many small write+flush pairs without a poll, then a drain
@@ -564,7 +576,7 @@ impl Prop for C09 {
         "exploration"
     }
     fn rule(&self, ctx: &Ctx) -> String {
-        format!("gzip-coded streaming bodies (Accept-Encoding: gzip). Exhaustive: all op sequences of length 1..={} over the C08 alphabet for chunk sizes {{1,2,3,4,7}} on levels 1,6,9; random: sequences of 10..200 ops x levels 1..9 x chunk sizes {:?} x payload class {{incompressible, zeros, text}} incl. large writes (up to 200 KiB). Oracle: own gzip header/trailer parser + CRC-32 + raw inflate; after every flush a streaming inflater over the frames available so far. Non-trivial = distinct sequence whose delivered stream was verified to be exactly one gzip member equal to the bytes written",
+        format!("gzip-coded streaming bodies (Accept-Encoding: gzip). Exhaustive: all op sequences of length 1..={} over the C08 alphabet for chunk sizes {{1,2,3,4,7}} on levels 1,6,9; random: sequences of 10..200 ops x levels 1..9 x chunk sizes {:?} x payload class {{incompressible, zeros, text}} incl. large writes (up to 200 KiB). A third of the streams is preceded on the same thread by another stream of the same configuration that is aborted, disconnected or abandoned. Oracle: own gzip header/trailer parser + CRC-32 + raw inflate; after every flush a streaming inflater over the frames available so far. Non-trivial = distinct sequence whose delivered stream was verified to be exactly one gzip member equal to the bytes written",
             if thorough(ctx) { 4 } else { 3 }, GZ_CHUNKS)
     }
     fn n_blocks(&self, ctx: &Ctx) -> usize {
@@ -615,7 +627,7 @@ fn c17_run(n: &NegCase, sink: &mut Sink) -> (Verdict, Option<u64>, Value) {
     let mut first_hdrs: Option<Vec<(String, Vec<u8>)>> = None;
     for method in ["GET", "POST", "HEAD"] {
         for via_parts in [false, true] {
-            let case = StreamCase { method: method.into(), accept_encoding: n.accept_encoding.clone(), chunk: n.chunk, gzip_level: n.level, via_parts, payload: Payload::Text, ops: vec![Op::WriteAll(300), Op::WriteV(vec![n.chunk as u32 + 1, 40, 2 * n.chunk as u32]), Op::WriteAll(5)], extra_polls: 1, fresh_wakers: false };
+            let case = StreamCase { method: method.into(), accept_encoding: n.accept_encoding.clone(), chunk: n.chunk, gzip_level: n.level, via_parts, payload: Payload::Text, ops: vec![Op::WriteAll(300), Op::WriteV(vec![n.chunk as u32 + 1, 40, 2 * n.chunk as u32]), Op::WriteAll(5)], extra_polls: 1, fresh_wakers: false, prelude: 0 };
             let o = match run_stream(&case) {
                 Some(o) => o,
                 None => return (Verdict::DontCare("inexpressible".into()), None, json!(null)),
@@ -696,7 +708,7 @@ fn c17_many_live(k: usize, sink: &mut Sink) {
         let mut live = Vec::new();
         for i in 0..n {
             let gz = i % 3 != 2;
-            let case = StreamCase { method: "GET".into(), accept_encoding: if gz { Some(b"gzip".to_vec()) } else { None }, chunk: 4096, gzip_level: Some(1 + (i % 9) as u32), via_parts: i % 2 == 0, payload: Payload::Text, ops: vec![], extra_polls: 0, fresh_wakers: false };
+            let case = StreamCase { method: "GET".into(), accept_encoding: if gz { Some(b"gzip".to_vec()) } else { None }, chunk: 4096, gzip_level: Some(1 + (i % 9) as u32), via_parts: i % 2 == 0, payload: Payload::Text, ops: vec![], extra_polls: 0, fresh_wakers: false, prelude: 0 };
             match build(&case) {
                 Some((resp, Some(w))) => live.push((gz, resp, w)),
                 _ => return Some("build returned no writer".into()),
@@ -846,7 +858,7 @@ pub fn c11_seq_judge(c: &StreamCase, o: &StreamObs, sink: &mut Sink) -> (Verdict
                 body_dropped = true;
                 fault_seen = true;
             }
-            (Op::Write(n), Res::Write { res, .. }) => {
+            (Op::Write(_) | Op::WriteV(_), Res::Write { offered: n, res }) => {
                 let ok = res.is_ok();
                 if aborted && ok {
                     return (Verdict::viol(format!("write-ok-after-abort|{}", mode), format!("step {}: write({}) returned {:?} after abort", i, n, res)), None);
@@ -860,7 +872,7 @@ pub fn c11_seq_judge(c: &StreamCase, o: &StreamObs, sink: &mut Sink) -> (Verdict
                         return (Verdict::viol("chunk-completing-write-ok-after-body-drop|raw", format!("step {}: write({}) completed a {}-byte chunk and returned {:?} although the body had been dropped", i, n, cap, res)), None);
                     }
                     if ok {
-                        buffered = if buffered + newly >= cap { 0 } else { buffered + newly };
+                        buffered = (buffered + newly) % cap;
                     }
                 }
                 if !ok {
@@ -1043,6 +1055,15 @@ fn c11_memory_case_inner(chunk: usize, gzip: Option<u32>, sink: &mut Sink) -> (V
     (Verdict::Ok, Some(hash64(&(chunk, gzip))), desc)
 }
 
+/// The C11 alphabet: the plain one plus two vectored writes.
+pub fn alphabet_c11(c: usize) -> Vec<Op> {
+    let mut v = alphabet(c);
+    let c = c as u32;
+    v.push(Op::WriteV(vec![c.saturating_sub(1).max(1), 2, c + 1]));
+    v.push(Op::WriteV(vec![0, 1, 3 * c]));
+    v
+}
+
 pub struct C11SeqSpace {
     pub blocks: Vec<(usize, usize, usize)>,
 }
@@ -1051,7 +1072,7 @@ pub fn c11_seq_space(ctx: &Ctx) -> C11SeqSpace {
     let mut blocks = Vec::new();
     let max_len = if ctx.leg.slow() { 1 } else if thorough(ctx) { 4 } else { 3 };
     for &c in &[1usize, 2, 3, 4, 7] {
-        let a = alphabet(c).len();
+        let a = alphabet_c11(c).len();
         for len in 0..=max_len {
             if len == 0 {
                 blocks.push((c, 0, 0));
@@ -1067,7 +1088,7 @@ pub fn c11_seq_space(ctx: &Ctx) -> C11SeqSpace {
 
 pub fn c11_run_seq_block(ctx: &Ctx, blk: (usize, usize, usize), sink: &mut Sink, judge: &Judge) {
     let (c, len, first) = blk;
-    let alpha = alphabet(c);
+    let alpha = alphabet_c11(c);
     let seqs: Vec<Vec<Op>> = if len == 0 {
         vec![vec![]]
     } else {
